@@ -5,3 +5,4 @@ import QlibcModel.Props.C13
 #print axioms Qlibc.Props.C13.wellLockedCfg_sound
 #print axioms Qlibc.Props.C13.all_wellLocked
 #print axioms Qlibc.Props.C13.unlocked_read_not_linearizable
+#print axioms Qlibc.Props.C13.macro_skeleton_as_modelled
